@@ -96,6 +96,7 @@ class SimNet:
         self.stats = Stats()
         self._empty_reads = 0
         self._timeouts = 0
+        self.send_calls = 0       # number of send() (not sendall) calls, names their draw scope
         self.cut_log = []         # (segment scope, span kind) for every recv that ended inside a reply
         self.seg_log = []         # (scope, length) of every enqueued segment
         self.socket_module = _SocketModule(self)
@@ -342,9 +343,24 @@ class FakeSocket:
         return len(data)
 
     def send(self, data, flags=0):
+        """send() may accept fewer bytes than offered (sendall() never does):
+        a drawn ``net`` choice, 0 = everything."""
         self._chk()
-        self._net.send(self._conn, self.channel, data)
-        return len(data)
+        data = bytes(data)
+        n = len(data)
+        if n > 1:
+            net = self._net
+            with net.ch.abs_scope("send#%d" % net.send_calls):
+                k = net.ch.net.weighted("sendshort", [2, 1, 1])
+                if k == 1:
+                    n = 1 + net.ch.net.int("accepted", n - 1)
+                elif k == 2:
+                    n = min(n, [1, 7, 512, 1460][net.ch.net.int("mss", 4)])
+            net.send_calls += 1
+            if n < len(data):
+                net.stats.probe("short_send")
+        self._net.send(self._conn, self.channel, data[:n])
+        return n
 
     def sendall(self, data, flags=0):
         self._chk()
